@@ -194,4 +194,179 @@ def TraefikOidc_isAllowedDomain (t : Go.Inst) (email : Go.Str) : Bool :=
       let ok := Go.setHas t.allowedUserDomains domain
       ok
 
+/-- isLocalRedirectTarget (main.go) -/
+def isLocalRedirectTarget (target : Go.Str) : Bool :=
+  if (!(Go.hasPrefix target ['/'])) then
+    false
+  else
+    ((!(Go.hasPrefix target ['/','/'])) && (!(Go.hasPrefix target ['/','\\'])))
+
+/-- buildFullURL (main.go) -/
+def buildFullURL (scheme : Go.Str) (host : Go.Str) (path : Go.Str) : Go.Str :=
+  if ((Go.hasPrefix path ['h','t','t','p',':','/','/']) || (Go.hasPrefix path ['h','t','t','p','s',':','/','/'])) then
+    path
+  else
+    if (!(Go.hasPrefix path ['/'])) then
+      let path := (['/'] ++ path)
+      (scheme ++ [':','/','/'] ++ host ++ path)
+    else
+      (scheme ++ [':','/','/'] ++ host ++ path)
+
+/-- TraefikOidc.extractGroupsAndRoles (main.go) -/
+def TraefikOidc_extractGroupsAndRoles (t : Go.Inst) (idToken : Go.Str) : (List Go.Str) × (List Go.Str) × Go.Err :=
+  let (claims, err) := (t.extractClaimsFunc idToken)
+  if err.isSome then
+    (([] : List Go.Str), ([] : List Go.Str), (some ['f','a','i','l','e','d',' ','t','o',' ','e','x','t','r','a','c','t',' ','c','l','a','i','m','s',':',' ','%','w']))
+  else
+    let groups := ([] : List Go.Str)
+    let roles := ([] : List Go.Str)
+    let (groupsClaim, exists_) := Go.mapGet2 claims ['g','r','o','u','p','s']
+    if exists_ then
+      let (groupsSlice, ok) := Go.asArr groupsClaim
+      if (!ok) then
+        (([] : List Go.Str), ([] : List Go.Str), (some ['g','r','o','u','p','s',' ','c','l','a','i','m',' ','i','s',' ','n','o','t',' ','a','n',' ','a','r','r','a','y']))
+      else
+        match Go.forRange groupsSlice groups (fun group groups =>
+          let (groupStr, ok_1) := Go.asStr group
+          if ok_1 then
+            let groups := (groups ++ [groupStr])
+            .next groups
+          else
+            .next groups) with
+        | .ret r => r
+        | .next groups =>
+          let (rolesClaim, exists_) := Go.mapGet2 claims ['r','o','l','e','s']
+          if exists_ then
+            let (rolesSlice, ok) := Go.asArr rolesClaim
+            if (!ok) then
+              (([] : List Go.Str), ([] : List Go.Str), (some ['r','o','l','e','s',' ','c','l','a','i','m',' ','i','s',' ','n','o','t',' ','a','n',' ','a','r','r','a','y']))
+            else
+              match Go.forRange rolesSlice roles (fun role roles =>
+                let (roleStr, ok_2) := Go.asStr role
+                if ok_2 then
+                  let roles := (roles ++ [roleStr])
+                  .next roles
+                else
+                  .next roles) with
+              | .ret r => r
+              | .next roles =>
+                (groups, roles, (none : Go.Err))
+              | .brk roles =>
+                (groups, roles, (none : Go.Err))
+          else
+            (groups, roles, (none : Go.Err))
+        | .brk groups =>
+          let (rolesClaim, exists_) := Go.mapGet2 claims ['r','o','l','e','s']
+          if exists_ then
+            let (rolesSlice, ok) := Go.asArr rolesClaim
+            if (!ok) then
+              (([] : List Go.Str), ([] : List Go.Str), (some ['r','o','l','e','s',' ','c','l','a','i','m',' ','i','s',' ','n','o','t',' ','a','n',' ','a','r','r','a','y']))
+            else
+              match Go.forRange rolesSlice roles (fun role roles =>
+                let (roleStr, ok_2) := Go.asStr role
+                if ok_2 then
+                  let roles := (roles ++ [roleStr])
+                  .next roles
+                else
+                  .next roles) with
+              | .ret r => r
+              | .next roles =>
+                (groups, roles, (none : Go.Err))
+              | .brk roles =>
+                (groups, roles, (none : Go.Err))
+          else
+            (groups, roles, (none : Go.Err))
+    else
+      let (rolesClaim, exists_) := Go.mapGet2 claims ['r','o','l','e','s']
+      if exists_ then
+        let (rolesSlice, ok) := Go.asArr rolesClaim
+        if (!ok) then
+          (([] : List Go.Str), ([] : List Go.Str), (some ['r','o','l','e','s',' ','c','l','a','i','m',' ','i','s',' ','n','o','t',' ','a','n',' ','a','r','r','a','y']))
+        else
+          match Go.forRange rolesSlice roles (fun role roles =>
+            let (roleStr, ok_3) := Go.asStr role
+            if ok_3 then
+              let roles := (roles ++ [roleStr])
+              .next roles
+            else
+              .next roles) with
+          | .ret r => r
+          | .next roles =>
+            (groups, roles, (none : Go.Err))
+          | .brk roles =>
+            (groups, roles, (none : Go.Err))
+      else
+        (groups, roles, (none : Go.Err))
+
+/-- splitIntoChunks (session.go) -/
+def splitIntoChunks (fuel : Nat) (s : Go.Str) (chunkSize : Int) : Option (List Go.Str) :=
+  let chunks := ([] : List Go.Str)
+  match Go.forWhile fuel (chunks, s) (fun (chunks, s) => (decide ((s.length : Int) > (0 : Int)))) (fun (chunks, s) =>
+    if (decide ((s.length : Int) > chunkSize)) then
+      let chunks := (chunks ++ [(Go.sliceTo s chunkSize)])
+      let s := (Go.sliceFrom s chunkSize)
+      .next (chunks, s)
+    else
+      let chunks := (chunks ++ [s])
+      .brk (chunks, s)) with
+  | none => none
+  | some (.ret r) => some r
+  | some (.next (chunks, s)) =>
+    some (chunks)
+  | some (.brk (chunks, s)) =>
+    some (chunks)
+
+/-- TraefikOidc.isUserAuthenticated (main.go) -/
+def TraefikOidc_isUserAuthenticated (now : Go.Time) (t : Go.Inst) (session : Go.Sess) : Bool × Bool × Bool :=
+  if (!session.GetAuthenticated) then
+    if (session.GetRefreshToken != ([] : Go.Str)) then
+      (false, true, false)
+    else
+      (false, false, false)
+  else
+    let accessToken := session.GetAccessToken
+    if (accessToken == ([] : Go.Str)) then
+      if (session.GetRefreshToken != ([] : Go.Str)) then
+        (false, true, false)
+      else
+        (false, false, true)
+    else
+      let (jwt, err) := (t.parseJWT accessToken)
+      if err.isSome then
+        if (session.GetRefreshToken != ([] : Go.Str)) then
+          (false, true, false)
+        else
+          (false, false, true)
+      else
+        let err_1 := (t.VerifyJWTSignatureAndClaims jwt accessToken)
+        if err_1.isSome then
+          if (Go.contains (Go.errText err_1) ['t','o','k','e','n',' ','h','a','s',' ','e','x','p','i','r','e','d']) then
+            if (session.GetRefreshToken != ([] : Go.Str)) then
+              (false, true, false)
+            else
+              (false, false, true)
+          else
+            if (session.GetRefreshToken != ([] : Go.Str)) then
+              (false, true, false)
+            else
+              (false, false, true)
+        else
+          let claims := jwt.Claims
+          let (expClaim, ok) := Go.asF64 (Go.mapGet claims ['e','x','p'])
+          if (!ok) then
+            if (session.GetRefreshToken != ([] : Go.Str)) then
+              (false, true, false)
+            else
+              (false, false, true)
+          else
+            let expTime := (Go.int64 expClaim)
+            if (Go.timeBefore (Go.timeUnix expTime (0 : Int)) (Go.timeAdd now t.refreshGracePeriod)) then
+              let remainingSeconds := (Go.int64 (Go.durSeconds (Go.timeSub (Go.timeUnix expTime (0 : Int)) now)))
+              if (session.GetRefreshToken != ([] : Go.Str)) then
+                (true, true, false)
+              else
+                (true, false, false)
+            else
+              (true, false, false)
+
 end Oidc.Generated.Code
